@@ -28,6 +28,10 @@ def int_to_chars(i, st = '', chars = ascii_lowercase,
         return ''.join([chars[0] * (length - len(st)), st])
     if i > 0:
         n = len(chars)
+        if n < 2 and not spaces:
+            # (with a single character and no spaces, only the zeroth name exists)
+            raise NamingConventionError('Character set ' + repr(chars) +
+                                        ' is too small for names without spaces.')
         char_index = i - 1 if spaces else i
         st = int_to_chars(char_index // n,
                           ''.join([chars[char_index % n], st]),
